@@ -261,7 +261,21 @@ func (r *Rec) NextRef() {
 	if r.cell == nil {
 		return
 	}
-	c, err := r.cell.NextRef()
+	var c *boc.Cell
+	var err error
+	pan := ""
+	func() {
+		defer func() {
+			if p := recover(); p != nil {
+				pan = fmt.Sprint(p)
+			}
+		}()
+		c, err = r.cell.NextRef()
+	}()
+	if pan != "" {
+		r.W.Emit(ev.M{"k": "Panic", "op": "NextRef", "panic": pan})
+		return
+	}
 	m := ev.M{"k": "NextRef"}
 	if err == nil {
 		m["id"] = refID(c)
@@ -390,6 +404,24 @@ func Drive(w *ev.Writer, o Opts) {
 	rng := rand.New(rand.NewSource(o.Seed*1000003 + int64(o.Shard)))
 	r := &Rec{W: w, SrcReads: rand.New(rand.NewSource(o.Seed + 77))}
 	thorough := o.Tier == "thorough"
+
+	// (0) references: 0..4 added (a fifth is refused), all of them read, and reads beyond what was written - an error, not a crash
+	if o.Shard == 0 {
+		for nref := 0; nref <= 5; nref++ {
+			r.Reset(1023, true)
+			r.WriteUint(uint64(nref), 8)
+			for i := 0; i < nref; i++ {
+				r.AddRef()
+			}
+			for i := 0; i < nref+2; i++ {
+				r.CopyRemaining()
+				r.NextRef()
+			}
+			r.ResetCounter()
+			r.NextRef()
+			r.CopyRemaining()
+		}
+	}
 
 	// (1) fast-path grid: every cursor offset x every width, over patterned buffers.
 	npat := 1
